@@ -397,6 +397,13 @@ func c19GenStack(r *rng) []c19Layer {
 	if r.chance(1, 12) {
 		kinds = append(kinds, 'S')
 	}
+	// stacks with several in-memory layers (any position, also next to each other, private or shared)
+	if r.chance(1, 5) {
+		kinds = append(kinds, 'L')
+		if r.chance(1, 3) {
+			kinds = append(kinds, 'L')
+		}
+	}
 	for i := len(kinds) - 1; i > 0; i-- {
 		j := r.intn(i + 1)
 		kinds[i], kinds[j] = kinds[j], kinds[i]
@@ -570,7 +577,15 @@ func c19OpsCase(e *env, r *rng) {
 			nSnap++
 		}
 	}
-	ops, vals := c19GenOps(r, layers, len(sys.clients), hasSnap)
+	nLru := 0
+	for _, l := range layers {
+		if l.kind == 'L' {
+			nLru++
+		}
+	}
+	// foreign undecodable writes only under at most one in-memory layer (the corrupt-entry rules of the
+	// judge speak about one such layer)
+	ops, vals := c19GenOps(r, layers, len(sys.clients), hasSnap && nLru < 2)
 	for i := range ops {
 		if ops[i].kind == "r" {
 			ops[i].phys = sys.clients[ops[i].client].phys(ops[i].key)
